@@ -15,19 +15,20 @@ sys.path.insert(0, os.path.join(os.path.dirname(os.path.dirname(os.path.dirname(
 import schemawalk
 
 PROP = 'C03'
-COQ_TARGETS = ['theories/CodecFacts.vo', 'theories/CodecWf.vo', 'theories/CodecTotal.vo', 'gen/Schemas.vo', 'theories/SchemaTables.vo']
+COQ_TARGETS = ['theories/CodecFacts.vo', 'theories/CodecWf.vo', 'theories/CodecTotal.vo', 'gen/Schemas.vo', 'theories/SchemaTables.vo',
+               'theories/ArrayObjFacts.vo']
 COQ_IMPORTS = ('From Bac Require Import Base.\nFrom Bac Require Import Tag.\nFrom Bac Require Import Schema.\n'
-               'From Bac Require Import Codec.\nFrom BacGen Require Import Schemas.')   # one library per line: much faster to load
+               'From Bac Require Import Codec.\nFrom Bac Require Import ArrayObj.\nFrom BacGen Require Import Schemas.')   # one library per line: much faster to load
 TABLE_OBLIGATIONS = ['C03_all_wf', 'C03_supported_or_listed', 'C03_all_supported', 'C03_registries_shape']
 RULE = ('cases: for each of the 58 registered PDUs and every Sequence/Choice class of apdu.py/basetypes.py (all, every run): presence '
         'patterns of its optional elements (all if <= 8 (quick) / 64 (thorough), else all-absent, all-present, each single one, '
         'random), every choice alternative, list lengths 0..3, every list element also with repeated entries (adjacent, non-adjacent, all equal; 0.0/-0.0 and True/False mixes), lists of every primitive element kind x ListOf/SequenceOf/ArrayOf x repetition pattern carried in an Any (cast_in / cast_out) and through ReadRangeACK.itemData, ReadPropertyACK.propertyValue, ... , nested values random to the depth of the type, leaves from boundary pools; '
         'each value is encoded (tag list / PDU octets compared) and its encoding decoded (shape + remaining tags compared); malformed '
         'stream = one structural mutation (delete, duplicate, renumber, reclass, swap, truncate, append) of a valid encoding, compared '
-        'on value shape or error class; typed Any contents (every constructed type with context-tagged primitive members, alone and in lists, plus the ones met inside generated PDUs) through Any.cast_out TWICE followed by a look at the tag list the Any holds (model: the unchanged input).  non-trivial = value with >= 1 optional present, >= 1 list element or a non-first alternative, '
+        'on value shape or error class; typed Any contents (every constructed type with context-tagged primitive members, alone and in lists, plus the ones met inside generated PDUs) through Any.cast_out TWICE followed by a look at the tag list the Any holds (model: the unchanged input); ArrayOf OBJECTS of every primitive element kind and every list-safe constructed subtype, free and fixed length, under histories of append / a[0]=n / a[i]=v / del a[i] (i in and just out of range) / decode-into-the-same-object, observed through every cell, len(), a[i], encode_item(i), encode() and Any.cast_in/cast_out, and decode_item on valid / foreign / malformed / no tags; a Sequence/PDU object encoded, one element changed, encoded again.  non-trivial = value with >= 1 optional present, >= 1 list element or a non-first alternative, '
         'or any malformed input; distinct by (type, operation, input).')
 TRUSTED = ['model coq/theories/Schema.v + Codec.v written by hand after constructeddata.py:78-312,386-524,1022-1191,1245-1275, '
-           'basetypes.py:2124-2203 (NameValue), apdu.py:678-717 (APCISequence); tie = in-kernel correspondence on every run',
+           'basetypes.py:2124-2203 (NameValue), apdu.py:678-717 (APCISequence); coq/theories/ArrayObj.v after constructeddata.py:698-1003 (the ArrayOf object); tie = in-kernel correspondence on every run',
            'coq/gen/Schemas.v produced by translator/schemawalk.py (import + introspection of sequenceElements/choiceElements/subtype and the '
            'four registries), fail-closed on unknown element kinds and on classes overriding the generic codec',
            'atomic leaves abstract: the application tag of a leaf is obtained from the atomic class\'s own encoder (property C01); '
@@ -826,6 +827,65 @@ def carried_extract(c, r):
     return ('list', tuple(extract_class(name, x) for x in r))
 
 
+def changed_variant(name, tr, rng):
+    """one element of a Sequence value changed to ANOTHER valid value (an atomic element re-drawn, or an optional
+    element that is present taken away): (element index, new sub-tree or None, the changed tree), or None"""
+    d = cdesc(name)
+    if d['kind'] != 'seq':
+        return None
+    idx = [i for i, e in enumerate(d['elements']) if (e['type']['k'] == 'atom' and tr[2][i] is not None) or (e['opt'] and tr[2][i] is not None)
+           or (e['opt'] and e['type']['k'] == 'atom')]
+    if not idx:
+        return None
+    i = rng.choice(idx)
+    e = d['elements'][i]
+    if e['opt'] and tr[2][i] is not None and (e['type']['k'] != 'atom' or rng.random() < 0.4):
+        new = None
+    else:
+        new = gen_type(e['type'], rng, 3)
+    tr2 = ('seq', name, [new if j == i else f for j, f in enumerate(tr[2])])
+    return i, new, tr2
+
+
+def apply_change(name, obj, i, new):
+    e = cdesc(name)['elements'][i]
+    setattr(obj, e['name'], None if new is None else build_type(e['type'], new))
+
+
+def case_encode_after_change(name, tr, rng):
+    """correspondence: the SAME object is encoded, one element is assigned another value, and it is encoded again:
+    the second encoding is the model's encoding of the value the object has now"""
+    cv = changed_variant(name, tr, rng)
+    if cv is None:
+        return None
+    i, new, tr2 = cv
+
+    def run():
+        obj = build_class(name, tr)
+        if is_pdu(name):
+            from bacpypes.apdu import APDU
+            obj.encode(APDU())
+            apply_change(name, obj, i, new)
+            a = APDU(); obj.encode(a)
+            return list(bytes(a.pduData))
+        from bacpypes.primitivedata import TagList
+        obj.encode(TagList())
+        apply_change(name, obj, i, new)
+        tl = TagList(); obj.encode(tl)
+        return canon_tags([tt(x) for x in tl.tagList])
+    try:
+        exp = canon_call(run, list)
+    except Exception:
+        return None
+    if is_pdu(name):
+        coq = 'canon_res zs (encode_pdu %s %s)' % (tname(name), coq_val(tr2))
+    else:
+        coq = 'canon_res canon_tags (encode %s %s)' % (tname(name), coq_val(tr2))
+    return Case('enc-after-change', coq, exp, key=(name, 'enc2', repr(strip(tr)), repr(strip(tr2))), nontrivial=True,
+                desc={'op': 'encode, assign element %s, encode again' % cdesc(name)['elements'][i]['name'], 'type': name,
+                      'value': repr(strip(tr))[:1200], 'changed_to': repr(strip(tr2))[:1200]})
+
+
 def history_failure(name, tr, rng=None):
     """'observation does not disturb': encode twice; decode twice (fresh objects, then the SAME object); on the
     decoded value look at every Any with cast_out (twice) and dict_contents, then re-encode: same octets"""
@@ -906,6 +966,37 @@ def history_failure(name, tr, rng=None):
             if o3 != o1:
                 return dict(base, kind='encode-after-failure-differs', history='%s := None, encode (refused=%s), restore' % (nm, refused),
                             again=o3.hex())
+    # an object that has been encoded is CHANGED and encoded again: the octets are those of a fresh object holding the
+    # new value (nothing of the first encoding is kept); changed back, it encodes to the first octets again
+    cv = changed_variant(name, tr, rng) if rng is not None else None
+    if cv is not None:
+        i, newv, tr2 = cv
+        enm = cdesc(name)['elements'][i]['name']
+        try:
+            want2 = enc(build_class(name, tr2))
+        except Exception:
+            want2 = None
+        if want2 is not None:
+            keep = getattr(src, enm, None)
+            try:
+                apply_change(name, src, i, newv)
+                got2 = enc(src)
+            except Exception as e:
+                return dict(base, kind='encode-after-change-refused', history='encode, %s := other value, encode' % enm,
+                            changed_to=repr(strip(tr2))[:1500], exc=type(e).__name__, msg=str(e)[:200])
+            finally:
+                setattr(src, enm, keep)
+            if got2 != want2:
+                return dict(base, kind='encode-after-change-differs', history='encode, %s := other value, encode' % enm,
+                            changed_to=repr(strip(tr2))[:1500], got=got2.hex(), want=want2.hex())
+            try:
+                o5 = enc(src)
+            except Exception as e:
+                return dict(base, kind='encode-after-change-refused', history='encode, %s changed, encode, changed back, encode' % enm,
+                            exc=type(e).__name__, msg=str(e)[:200])
+            if o5 != o1:
+                return dict(base, kind='encode-after-change-differs', history='encode, %s changed, encode, changed back, encode' % enm,
+                            got=o5.hex(), want=o1.hex())
     if rng is not None and len(o1) >= 2:
         damaged = bytearray(o1)
         how = rng.randrange(3)
@@ -1091,6 +1182,10 @@ def cases(rng, tier):
             except Exception:
                 continue
             nt = nontrivial_tree(tr)
+            if rng.random() < 0.25:
+                k = case_encode_after_change(name, tr, rng)
+                if k is not None:
+                    out.append(k)
             for atr in iter_anys(tr):
                 out.append(case_cast(atr[2], atr[1]))
                 if rng.random() < 0.5:
@@ -1121,6 +1216,7 @@ def cases(rng, tier):
                 else:
                     out.append(case_decode_tags(name, mt, 'dec-malformed'))
     out.extend(extra_cases(rng, tier))
+    out.extend(array_cases(rng, tier))
     return out
 
 
@@ -1344,6 +1440,455 @@ def extra_cases(rng, tier):
 
 
 # ------------------------------------------------------------------------------------------------
+# the ArrayOf OBJECT (model coq/theories/ArrayObj.v): self.value = [count, e1, ..., en] under histories of method calls
+def array_subtypes():
+    """(descriptor, element maker) for the subtypes arrays are made of: every primitive element kind and the
+    list-safe constructed types with context-tagged primitive members"""
+    out = [('arrayof-atom', n) for n in LIST_ATOMS]
+    out += [('arrayof', n) for n in carry_pool()['ctxprim'] if list_safe(n)]
+    return out
+
+
+def arr_elem(c, rng):
+    """one element: (python value handed to the array, neutral tree)"""
+    if is_atom_list(c):
+        klass = atom_class(c[1])
+        v = leaf_value(klass, rng)
+        return v, atom_tree(klass, c[1], v)
+    for _ in range(20):
+        tr = gen_bounded(c[1], rng, limit=25)
+        if not features(tr):
+            return build_class(c[1], tr), tr
+    raise ValueError(c)
+
+
+def arr_default(c):
+    """subtype().value as a neutral tree (what fix_length pads with); None for constructed subtypes: a bare
+    subtype() has no required element set and cannot be encoded — histories never grow those"""
+    if not is_atom_list(c):
+        return None
+    klass = atom_class(c[1])
+    try:
+        v = klass().value
+        return atom_tree(klass, c[1], v)
+    except Exception:
+        return None
+
+
+def arr_item_tags(c, item):
+    """the tags one element cell of the implementation's self.value encodes to (subtype's own encoder)"""
+    from bacpypes.primitivedata import TagList
+    if is_atom_list(c):
+        return [leaf_tag(atom_class(c[1]), item)]
+    tl = TagList()
+    item.encode(tl)
+    return [tt(x) for x in tl.tagList]
+
+
+def arr_canon_cell(c, pos, cell):
+    if pos == 0:
+        return [0, int(cell)]
+    return [1] + canon_call(lambda: arr_item_tags(c, cell), canon_tags)
+
+
+def arr_class(c, fixed):
+    from bacpypes import constructeddata as cd
+    sub = atom_class(c[1]) if is_atom_list(c) else S()['classes'][c[1]]
+    return cd.ArrayOf(sub) if fixed is None else cd.ArrayOf(sub, fixed_length=fixed)
+
+
+def arr_apply(a, op):
+    from bacpypes.primitivedata import TagList
+    k = op[0]
+    if k == 'append':
+        a.append(op[1])
+    elif k == 'setlen':
+        a[0] = op[1]
+    elif k == 'set':
+        a[op[1]] = op[2]
+    elif k == 'del':
+        del a[op[1]]
+    elif k == 'decode':
+        guarded(lambda: a.decode(TagList([mk(*t) for t in op[1]])), 3)
+    else:
+        raise ValueError(k)
+
+
+def gen_array_history(rng, c=None):
+    """a constructor call and a history of method calls on ONE ArrayOf object: append, __setitem__(0, n) (shrink,
+    grow with defaults, same), __setitem__(i, v) and __delitem__(i) for i = 0 .. len + 1 (in and just out of range),
+    decode of another array's encoding into the same object; free and fixed length; the generator follows a live
+    object only to know the current length"""
+    c = c or rng.choice(array_subtypes())
+    dflt = arr_default(c)
+    n0 = rng.choice([0, 1, 2, 3])
+    init = [arr_elem(c, rng) for _ in range(n0)]
+    if init and rng.random() < 0.4:
+        init = dup_pattern(init, rng, lambda: arr_elem(c, rng))
+    r = rng.random()
+    fixed = None if r < 0.7 else (len(init) if r < 0.95 else len(init) + 1)     # the last: the constructor refuses
+    use_init = not (rng.random() < 0.15)
+    if not use_init and (fixed is not None) and dflt is None:
+        fixed = None
+    h = {'c': c, 'fixed': fixed, 'init': init if use_init else None, 'ops': [], 'dflt': dflt}
+    klass = arr_class(c, fixed)
+    try:
+        live = klass([x[0] for x in init]) if use_init else klass()
+    except Exception:
+        return h
+    for _ in range(rng.choice([1, 2, 3, 4, 6])):
+        n = len(live.value) - 1
+        k = rng.choice(['append', 'setlen', 'set', 'set', 'del', 'del', 'decode'])
+        if k == 'append':
+            op = ('append',) + arr_elem(c, rng)
+        elif k == 'setlen':
+            grow = [n + 1, n + 2] if dflt is not None else []
+            op = ('setlen', rng.choice([0, max(0, n - 1), n] + grow))
+        elif k == 'set':
+            op = ('set', rng.choice(list(range(1, n + 2)))) + arr_elem(c, rng)
+        elif k == 'del':
+            op = ('del', rng.choice(list(range(0, n + 2))))
+        else:
+            items = [arr_elem(c, rng) for _ in range(rng.choice([0, 1, 2, 3]) if fixed is None or rng.random() < 0.3 else fixed)]
+            tags = []
+            for it in items:
+                tags += arr_item_tags(c, it[0])
+            if rng.random() < 0.3:
+                tags = tags + [(3, 1, 0, b'')]
+            if rng.random() < 0.15:
+                tags = mutate_tags(tags, rng)
+            op = ('decode', tags)
+        h['ops'].append(op)
+        try:
+            arr_apply(live, op if op[0] not in ('append', 'set') else op[:-1])
+        except Exception:
+            pass
+    return h
+
+
+def impl_array_hist(h):
+    """the observable of the history (== ArrayObj.canon_hist)"""
+    from bacpypes.primitivedata import TagList
+    from bacpypes.constructeddata import Any
+    c = h['c']
+    klass = arr_class(c, h['fixed'])
+    try:
+        a = klass([x[0] for x in h['init']]) if h['init'] is not None else klass()
+    except Exception as e:
+        return [1, exc_code(e)]
+    out = [0]
+    for op in h['ops']:
+        try:
+            arr_apply(a, op if op[0] not in ('append', 'set') else op[:-1])
+            out.append(0)
+        except RecursionError:
+            raise
+        except Exception as e:
+            out.append(exc_code(e))
+    val = a.value
+    out.append(len(val))
+    for i, cell in enumerate(val):
+        out += arr_canon_cell(c, i, cell)
+    out += canon_call(lambda: len(a), lambda n: [n])
+    for i in range(len(val) + 1):
+        out += canon_call(lambda: a[i], lambda cell: arr_canon_cell(c, i, cell))
+
+        def enc_item():
+            tl = TagList()
+            a.encode_item(i, tl)
+            return [tt(x) for x in tl.tagList]
+        out += canon_call(enc_item, canon_tags)
+
+    def enc():
+        tl = TagList()
+        a.encode(tl)
+        return [tt(x) for x in tl.tagList]
+    out += canon_call(enc, canon_tags)
+
+    def cast():
+        x = Any()
+        x.cast_in(a)
+        return x.cast_out(klass)
+
+    def canon_items(r):
+        o = [len(r)]
+        for it in r:
+            o += canon_call(lambda: arr_item_tags(c, it), canon_tags)
+        return o
+    out += canon_call(cast, canon_items)
+    return out
+
+
+def arr_coq_subtype(c):
+    return '(TAtom %d)' % atom_class(c[1])._app_tag if is_atom_list(c) else tname(c[1])
+
+
+def arr_coq_op(op):
+    k = op[0]
+    if k == 'append': return '(OAppend %s)' % coq_val(op[2])
+    if k == 'setlen': return '(OSetLen %d)' % op[1]
+    if k == 'set': return '(OSet %d %s)' % (op[1], coq_val(op[3]))
+    if k == 'del': return '(ODel %d)' % op[1]
+    return '(ODecode %s)' % coq_tags(op[1])
+
+
+def arr_hist_desc(h):
+    def o(op):
+        if op[0] == 'decode':
+            return ['decode', [list(t[:3]) + [t[3].hex()] for t in op[1]]]
+        if op[0] == 'append':
+            return ['append', repr(strip(op[2]))[:200]]
+        if op[0] == 'set':
+            return ['set', op[1], repr(strip(op[3]))[:200]]
+        return list(op)
+    return {'op': 'ArrayOf object history', 'type': 'arrayof %s' % h['c'][1], 'fixed_length': h['fixed'],
+            'init': None if h['init'] is None else [repr(strip(x[1]))[:200] for x in h['init']], 'calls': [o(op) for op in h['ops']]}
+
+
+def case_array_hist(h, kind='array-history'):
+    c = h['c']
+    exp = impl_array_hist(h)
+    dflt = coq_val(h['dflt']) if h['dflt'] is not None else '(VTags [])'
+    init = 'None' if h['init'] is None else '(Some [%s])' % ';'.join(coq_val(x[1]) for x in h['init'])
+    fixed = 'None' if h['fixed'] is None else '(Some %d%%N)' % h['fixed']
+    coq = 'canon_hist %s %s %s %s [%s]' % (arr_coq_subtype(c), fixed, dflt, init, ';'.join(arr_coq_op(op) for op in h['ops']))
+    return Case(kind, coq, exp, key=('arrhist', repr(exp), coq[:400]), nontrivial=True, desc=arr_hist_desc(h))
+
+
+def case_array_decode_item(c, i, tags, kind='array-decode-item'):
+    """decode_item(i, tags) on a fresh object: the item it holds afterwards (by shape) and the tags left"""
+    from bacpypes.primitivedata import TagList
+    klass = arr_class(c, None)
+    dflt = arr_default(c)
+
+    def run():
+        a = klass()
+        tl = TagList([mk(*t) for t in tags])
+        guarded(lambda: a.decode_item(i, tl), 3)
+        if i == 0:
+            shape = [0, int(a.value)]
+        elif is_atom_list(c):
+            shape = [1, 1, atom_class(c[1])._app_tag]
+        else:
+            shape = [1] + shape_class(c[1], a.value)
+        return shape + canon_tags([tt(x) for x in tl.tagList])
+    exp = canon_call(run, lambda r: r)
+    coq = 'canon_res canon_item_dec (arr_decode_item %s %s %d %s)' % (
+        arr_coq_subtype(c), coq_val(dflt) if dflt is not None else '(VTags [])', i, coq_tags(tags))
+    return Case(kind, coq, exp, key=('arrdecitem', c[1], i, repr(tags)), nontrivial=True,
+                desc={'op': 'ArrayOf.decode_item', 'type': 'arrayof %s' % c[1], 'index': i,
+                      'tags': [list(t[:3]) + [t[3].hex()] for t in tags]})
+
+
+def count_tag(n):
+    from bacpypes.primitivedata import Unsigned
+    return leaf_tag(Unsigned, n)
+
+
+def array_cases(rng, tier):
+    out = []
+    subs = array_subtypes()
+    per = 1 if tier == 'quick' else 4
+    for c in subs:                                   # every subtype every run
+        for _ in range(per):
+            try:
+                out.append(case_array_hist(gen_array_history(rng, c)))
+            except _Watchdog:
+                continue
+        # item access: the count, a valid element, and malformed / foreign / no tags
+        try:
+            it = arr_elem(c, rng)
+            good = arr_item_tags(c, it[0])
+        except Exception:
+            continue
+        follow = rng.choice([[], [(3, 3, 0, b'')], [(0, 2, 1, b'\x05')]])
+        out.append(case_array_decode_item(c, rng.choice([1, 2, 7]), good + follow))
+        out.append(case_array_decode_item(c, 0, [count_tag(rng.choice([0, 1, 3, 255, 256, 65536, 4294967295]))] + follow))
+        r = rng.random()
+        if r < 0.4:
+            out.append(case_array_decode_item(c, rng.choice([0, 1]), mutate_tags(good, rng)))
+        elif r < 0.6 and (is_atom_list(c) and arr_default(c) is not None):
+            out.append(case_array_decode_item(c, rng.choice([0, 1]), []))
+        elif r < 0.8:
+            out.append(case_array_decode_item(c, 0, good))
+    for _ in range(60 if tier == 'quick' else 400):   # and random subtypes / longer histories
+        try:
+            out.append(case_array_hist(gen_array_history(rng)))
+        except _Watchdog:
+            continue
+    return out
+
+
+def arr_freeze(h):
+    """literal form of a history (trees only) for the replay file"""
+    ops = []
+    for op in h['ops']:
+        if op[0] == 'append':
+            ops.append(('append', op[2]))
+        elif op[0] == 'set':
+            ops.append(('set', op[1], op[3]))
+        else:
+            ops.append(tuple(op))
+    return repr({'c': tuple(h['c']), 'fixed': h['fixed'], 'init': None if h['init'] is None else [x[1] for x in h['init']],
+                 'ops': ops, 'dflt': h['dflt']})
+
+
+def arr_thaw(text):
+    import ast
+    d = ast.literal_eval(text)
+    c = tuple(d['c'])
+
+    def py(tr):
+        return tr[4] if is_atom_list(c) else build_class(c[1], tr)
+    ops = []
+    for op in d['ops']:
+        if op[0] == 'append':
+            ops.append(('append', py(op[1]), op[1]))
+        elif op[0] == 'set':
+            ops.append(('set', op[1], py(op[2]), op[2]))
+        else:
+            ops.append(tuple(op))
+    return {'c': c, 'fixed': d['fixed'], 'init': None if d['init'] is None else [(py(t), t) for t in d['init']], 'ops': ops, 'dflt': d['dflt']}
+
+
+def array_object_failure(h):
+    f = _array_object_failure(h)
+    if f is not None:
+        f['array_history'] = arr_freeze(h)
+    return f
+
+
+def _array_object_failure(h):
+    """direct, implementation only: after EVERY call of the history the object is a well-formed array (value[0] ==
+    len(value) - 1 == len(a) == number of iterated elements), and at the end: encode -> decode into a fresh object
+    gives the same cells and re-encodes identically; encode_item(0) reads back as the count and encode_item(i) as the
+    i-th element, nothing left over; Any.cast_in(a) -> octets -> Any.decode -> cast_out(class) are the elements,
+    and an array built from them has the same octets"""
+    from bacpypes.primitivedata import TagList
+    from bacpypes.constructeddata import Any
+    from bacpypes.comm import PDUData
+    c = h['c']
+    d = arr_hist_desc(h)
+    base = {'type': d['type'], 'value': repr(d['init'])[:1500], 'history': repr(d['calls'])[:2500], 'fixed_length': h['fixed'],
+            'features': []}
+    klass = arr_class(c, h['fixed'])
+    try:
+        a = klass([x[0] for x in h['init']]) if h['init'] is not None else klass()
+    except Exception:
+        return None
+
+    def cells(val):
+        return [arr_canon_cell(c, i, x) for i, x in enumerate(val)]
+
+    def shape_bad(step):
+        val = a.value
+        if not isinstance(val, list) or not val or isinstance(val[0], bool) or not isinstance(val[0], int):
+            return dict(base, kind='array-count-cell-lost', after=step)
+        n = val[0]
+        if not (n == len(val) - 1 == len(a) == len(list(a))):
+            return dict(base, kind='array-count-differs-from-elements', after=step, count=n, cells=len(val) - 1,
+                        len=len(a), iterated=len(list(a)))
+        if h['fixed'] is not None and n != h['fixed']:
+            return dict(base, kind='fixed-length-array-changed-length', after=step, count=n)
+        return None
+    f = shape_bad('constructor')
+    if f:
+        return f
+    if h['init'] is not None and cells(a.value)[1:] != cells([0] + [x[0] for x in h['init']])[1:]:
+        return dict(base, kind='array-constructor-changes-elements')
+    for k, op in enumerate(h['ops']):
+        before = cells(a.value)
+        try:
+            arr_apply(a, op if op[0] not in ('append', 'set') else op[:-1])
+            ok = True
+        except _Watchdog:
+            return dict(base, kind='decode-hang', after='call %d' % k)
+        except Exception:
+            ok = False
+        f = shape_bad('call %d (%s)' % (k, op[0]))
+        if f:
+            return f
+        if not ok and cells(a.value) != before:
+            return dict(base, kind='refused-call-changed-the-array', after='call %d (%s)' % (k, op[0]))
+    want = cells(a.value)
+    n = a.value[0]
+    try:
+        tl = TagList(); a.encode(tl)
+        tags = [tt(x) for x in tl.tagList]
+    except Exception:
+        return None          # elements that cannot be encoded (padded constructed defaults): not a valid value
+    octets = tags_to_octets(tags)
+    base['octets'] = octets.hex()
+    try:
+        tl = TagList(); tl.decode(PDUData(octets))
+        b = klass(); guarded(lambda: b.decode(tl), 3)
+        rest = len(tl.tagList)
+        got = cells(b.value)
+        tl2 = TagList(); b.encode(tl2)
+        again = tags_to_octets([tt(x) for x in tl2.tagList])
+    except Exception as e:
+        return dict(base, kind='decode-refused', exc=type(e).__name__, msg=str(e)[:200])
+    if rest:
+        return dict(base, kind='decode-leftover', rest=rest)
+    if got != want:
+        return dict(base, kind='value-changed', decoded=repr(got)[:1500], want=repr(want)[:1500])
+    if again != octets:
+        return dict(base, kind='reencode-differs', again=again.hex())
+    # item access
+    for i in range(0, n + 1):
+        try:
+            tl = TagList(); a.encode_item(i, tl)
+            it_octets = tags_to_octets([tt(x) for x in tl.tagList])
+            tl = TagList(); tl.decode(PDUData(it_octets))
+            b = klass(); guarded(lambda: b.decode_item(i, tl), 3)
+            left = len(tl.tagList)
+            got_cell = arr_canon_cell(c, i, b.value)
+        except Exception as e:
+            return dict(base, kind='array-item-refused', index=i, exc=type(e).__name__, msg=str(e)[:200])
+        if left:
+            return dict(base, kind='array-item-leftover', index=i, rest=left)
+        if got_cell != want[i]:
+            return dict(base, kind='array-item-changed', index=i, got=repr(got_cell)[:600], want=repr(want[i])[:600])
+    # through an Any
+    try:
+        x = Any(); x.cast_in(a)
+        any_octets = tags_to_octets([tt(t) for t in x.tagList.tagList])
+        y = Any(); tl = TagList(); tl.decode(PDUData(any_octets)); y.decode(tl)
+        out1 = guarded(lambda: y.cast_out(klass), 3)
+        out2 = guarded(lambda: y.cast_out(klass), 3)
+        got1 = [arr_canon_cell(c, 1, v) for v in out1]
+        got2 = [arr_canon_cell(c, 1, v) for v in out2]
+        z = Any(); z.cast_in(klass(list(out1)))
+        back = tags_to_octets([tt(t) for t in z.tagList.tagList])
+    except Exception as e:
+        return dict(base, kind='cast-out-refused', exc=type(e).__name__, msg=str(e)[:200])
+    if any_octets != octets:
+        return dict(base, kind='cast-in-octets-differ', got=any_octets.hex())
+    if got1 != want[1:] or got2 != want[1:]:
+        return dict(base, kind='cast-out-value-differs', got=repr(got1)[:1200], want=repr(want[1:])[:1200])
+    if back != octets:
+        return dict(base, kind='reencode-differs', via='ArrayOf(cast_out result) -> cast_in', again=back.hex())
+    return None
+
+
+def array_direct(rng, tier):
+    fails, n = [], 0
+    subs = array_subtypes()
+    for c in subs:
+        for _ in range(2 if tier == 'quick' else 8):
+            n += 1
+            f = array_object_failure(gen_array_history(rng, c))
+            if f:
+                fails.append(f)
+    for _ in range(150 if tier == 'quick' else 1500):
+        n += 1
+        f = array_object_failure(gen_array_history(rng))
+        if f:
+            fails.append(f)
+    return fails, n
+
+
+# ------------------------------------------------------------------------------------------------
 # direct, implementation-only predicate
 def roundtrip_failure(name, tr):
     """None, or a failure dict: value -> octets -> value' (== value) -> octets' (== octets)"""
@@ -1483,6 +2028,9 @@ def direct(rng, tier, focus=()):
         nhist['cast_in_recoveries'] += 1
         if f:
             failures.append(f)
+    af, an = array_direct(rng, tier)
+    failures.extend(af)
+    n += an
     n += len(_vectors())
     failures.extend(annexf_failures())
     n += len(fresh_jobs)
@@ -1510,7 +2058,7 @@ def direct(rng, tier, focus=()):
     return failures, {'evaluations': n, 'distinct_nontrivial': len(nontriv), 'types_exercised': len(per_type),
                       'min_values_per_type': min(per_type.values()) if per_type else 0, 'samples': samples,
                       'observation_histories': nhist['histories'], 'typed_anys_cast_out_twice': nhist['anys_observed'],
-                      'cast_in_after_failure_histories': nhist['cast_in_recoveries'],
+                      'cast_in_after_failure_histories': nhist['cast_in_recoveries'], 'array_object_histories': an,
                       'decoded_in_fresh_decode_only_process': len(fresh_jobs)}
 
 
@@ -1704,6 +2252,14 @@ def replay(payload):
             print('implementation   :', d.expected)
         except Exception as e:
             print('implementation encode raises', type(e).__name__)
+    if f.get('array_history'):
+        h = arr_thaw(f['array_history'])
+        print('implementation now:', {k: v for k, v in (array_object_failure(h) or {'kind': 'the array object behaves'}).items() if k != 'array_history'})
+        import core
+        c = case_array_hist(h)
+        got, err = core.coq_eval(COQ_IMPORTS, c.coq)
+        print('model observable :', got if got is not None else err)
+        print('implementation   :', c.expected)
     if str(f.get('kind', '')).startswith('fresh-process') and f.get('octets') and f.get('type'):
         want_tree = f.get('value') if f.get('kind') == 'fresh-process-decode-differs' else None
         want_dict = f.get('want') if f.get('kind') == 'fresh-process-dict-contents-differ' else None
